@@ -296,12 +296,101 @@ def m_mem_replace(ex, st, callee, args, dty, site):
     return ex.read_node(old)
 
 
-MEM_MODELS = [(r"^(std|core)::mem::replace::<.*>$", m_mem_replace)]
+def m_mem_swap(ex, st, callee, args, dty, site):
+    """std::mem::swap(&mut a, &mut b)"""
+    a, b = args[0], args[1]
+    if not (isinstance(a, Ptr) and isinstance(b, Ptr)):
+        return NotImplemented
+    ca, cb_ = a.node.clone(), b.node.clone()
+    ex.write(a.node, cb_)
+    ex.write(b.node, ca)
+    return Opaque(z3.Const("unit", OBJ))
+
+
+MEM_MODELS = [(r"^(std|core)::mem::replace::<.*>$", m_mem_replace), (r"^(std|core)::mem::swap::<.*>$", m_mem_swap)]
 MODEL_DOC[MEM_MODELS[0][0]] = "mem::replace(&mut dest, src): stores src, returns the previous value"
+MODEL_DOC[MEM_MODELS[1][0]] = "mem::swap(&mut a, &mut b): exchanges the two values"
 
 
 TRACING_MODELS = [(r"^<Level as PartialOrd<LevelFilter>>::le$", lambda ex, st, c, a, d, s: z3.BoolVal(False))]
 MODEL_DOC[TRACING_MODELS[0][0]] = "tracing: Level <= LevelFilter is false (logging off; log statements are not the subject)"
+
+
+# ---- format!("..{}..", s): length = literal bytes + lengths of the displayed strings (rustc's compact template encoding)
+def _decode_template(term_text):
+    """byte string constant of `Arguments::new::<N, K>`: <n:u8 < 0x80><n literal bytes> ... | 0xC0 = next argument, default format | 0x00 = end.
+    returns (literal byte count, number of placeholders) or None"""
+    m = re.search(r'const:b"((?:[^"\\]|\\.)*)"', term_text)
+    if not m:
+        return None
+    raw = m.group(1).encode().decode("unicode_escape").encode("latin-1")
+    i, lit, holes = 0, 0, 0
+    while i < len(raw):
+        b = raw[i]
+        if b == 0:
+            return (lit, holes) if i == len(raw) - 1 else None
+        if b == 0xC0:
+            holes += 1
+            i += 1
+        elif b < 0x80:
+            lit += b
+            i += 1 + b
+        else:
+            return None          # formatting options etc.: not modelled
+    return None
+
+
+def m_fmt_argument(ex, st, callee, args, dty, site):
+    n = Node(ex.ctx.fresh_name("fmtarg"), "Argument")
+    k = Node(n.name + ".value", None)
+    k.val = args[0] if not isinstance(args[0], Node) else None
+    if isinstance(args[0], Node):
+        ex.write(k, args[0])
+    n.kids["value"] = k
+    return n
+
+
+def m_fmt_arguments_new(ex, st, callee, args, dty, site):
+    dec = _decode_template(str(to_term(args[0])))
+    if dec is None:
+        return NotImplemented
+    n = Node(ex.ctx.fresh_name("fmtargs"), "Arguments")
+    n.variant = ("fmtargs", dec[0], dec[1])
+    k = Node(n.name + ".args", None)
+    k.val = args[1] if not isinstance(args[1], Node) else None
+    if isinstance(args[1], Node):
+        ex.write(k, args[1])
+    n.kids["args"] = k
+    return n
+
+
+def m_format(ex, st, callee, args, dty, site):
+    a = args[0]
+    if not (isinstance(a, Node) and isinstance(a.variant, tuple) and a.variant and a.variant[0] == "fmtargs"):
+        return NotImplemented
+    arr = ex.read_node(a.kids["args"])
+    arr = arr.node if isinstance(arr, Ptr) else arr
+    arr = ex.read_node(arr) if isinstance(arr, Node) else arr
+    if isinstance(arr, Ptr):
+        arr = arr.node
+    total = z3.BitVecVal(a.variant[1], 64)
+    i = 0
+    while isinstance(arr, Node) and i in arr.kids:
+        el = ex.read_node(arr.kids[i])
+        if not (isinstance(el, Node) and "value" in el.kids):
+            return NotImplemented
+        total = total + length_of(ex, ex.read_node(el.kids["value"]))
+        i += 1
+    if i != a.variant[2]:
+        return NotImplemented
+    out = Node(ex.ctx.fresh_name("formatted"), "std::string::String")
+    ex.child(out, "len", "usize").val = total
+    return out
+
+
+STRING_MODELS += [(r"^core::fmt::rt::Argument::<'_>::new_display::<(std::string::String|&?str|&std::string::String)>$", m_fmt_argument),
+                  (r"^Arguments::<'_>::new::<\d+, \d+>$", m_fmt_arguments_new), (r"^format$", m_format), (r"^must_use::<std::string::String>$", m_identity)]
+MODEL_DOC[r"^format$"] = "format!(template, strings..): length = literal bytes of the template + lengths of the displayed strings (templates with plain {} of String/str only)"
 
 
 def m_vec_u8_is_empty(ex, st, callee, args, dty, site):
